@@ -6,12 +6,18 @@
    always equals everything issued to it minus everything it has withdrawn; a withdrawal succeeds only
    up to that amount and credits the balance by exactly the requested amount."
 
-  Assumption left to the trusted harness (tmsim, Tendermint's +2 pipeline): `votes_match_ledger` — the
-  power carried by a vote of block H equals the validator's total power in ledger version `hopOf H`;
-  where it does not (probe-confirmed for heights 2–4 after an early delegation) the code silently
-  skips the validator, and `issuance` says exactly that (`rewardedDeleg`).
+  `votes_match_ledger` — the power carried by a vote of block H equals the validator's total power in ledger
+  version `hopOf H` — is no longer left to the trusted harness: for heights ≥ 5 it is PROVED
+  (`votes_match_ledger`, `signers_all_rewarded` below; proofs in RigoProofs/C13Pipeline*.lean) from the model and an
+  explicit model of how Tendermint feeds an ABCI application (`C13P.TMFaithful`: validator updates of EndBlock(h)
+  take effect at block h+2; LastCommitInfo(H) = the validator set of block H−1 with its powers in that set), under
+  C10's input hypotheses, no panic answer and "block 2 announces the genesis set" (`C13P.RunOK`).  What is
+  still trusted: that tmsim/Tendermint behaves as `TMFaithful` says.  Heights 2–4 are the recorded finding
+  `issuance-early-heights` (`votes_early_heights`: the votes are the genesis set, the code reads version 1 / latest;
+  where the powers differ the code silently skips the validator, and `issuance` says exactly that).
 -/
 import RigoProofs.C13Reach2
+import RigoProofs.C13Pipeline
 
 namespace Rigo.C13
 open Rigo
@@ -210,4 +216,53 @@ example (g : Genesis) : NoWrap (initChain g) [.begin_ { height := 1 }, .end_, .c
   have : issuedIn (initChain g) { height := 1 } k = 0 := by simp [issuedIn, hi]
   rw [h0, this]; unfold two256; omega
 
+/-- **votes_match_ledger** — "(stakes being those recorded at the height from which consensus derived that validator's
+    voting power)".  Formerly an assumption left to the trusted harness; now a theorem about every run that is good
+    (`C13P.RunOK`: C10's input hypotheses `InputsOK`, sane parameters `ParamsAlong`, ABCI call order, no panic answer,
+    genesis set announced by block 2 `GenesisCovered`) and TM-faithful (`C13P.TMFaithful`: the votes of BeginBlock(H) are
+    exactly the validator set in force for block H−1 by Tendermint's +2 rule applied to the run's own EndBlock answers):
+    at every BeginBlock of height `H ≥ 5` every vote finds, in ledger version `hopOf H = H − 4`, a delegatee under the
+    ledger key of its address whose total power equals the vote's power. -/
+theorem votes_match_ledger {f : Hex → Hex} (finj : TM.Injective f) {g : Genesis} {ops : List Op}
+    (ok : C13P.RunOK f g ops) (htm : C13P.TMFaithful f g ops) {pre : List Op} {hdr : Header} {post : List Op}
+    (e : ops = pre ++ .begin_ hdr :: post) (h5 : 5 ≤ hdr.height) :
+    ∃ rl, (exec (initChain g) pre).delegs.at? (hopOf hdr.height) = some rl ∧
+      ∀ v ∈ hdr.votes, ∃ d, rl[ledgerKey v.addr]? = some d ∧ d.total = v.power ∧ d.addr = v.addr :=
+  C13P.votes_match_ledger finj ok htm e h5
+
+/-- **signers_all_rewarded** — first sentence of C13 from height 5 on, without harness assumption: no signer is skipped;
+    the reward event pays every account exactly `stakeRwd` of every stake of every SIGNED validator as recorded in
+    version `H − 4` (`C13P.signerRwd`: no power comparison), and nobody else anything. -/
+theorem signers_all_rewarded {f : Hex → Hex} (finj : TM.Injective f) {g : Genesis} {ops : List Op}
+    (ok : C13P.RunOK f g ops) (htm : C13P.TMFaithful f g ops) {pre : List Op} {hdr : Header} {post : List Op}
+    (e : ops = pre ++ .begin_ hdr :: post) (h5 : 5 ≤ hdr.height) :
+    ∃ rl, (exec (initChain g) pre).delegs.at? (hopOf hdr.height) = some rl ∧
+      (∀ v ∈ hdr.votes, v.signed = true → ∃ d, rl[ledgerKey v.addr]? = some d ∧ d.total = v.power ∧
+        rewardedDeleg rl v = some d) ∧
+      ∀ n, (beginBlock (exec (initChain g) pre) hdr).2.issued = some n →
+        n = ((hdr.votes.map (C13P.signerRwdAll rl (exec (initChain g) pre).active.rewardPerPower)).sum) % two256 ∧
+        ∀ k, cumOf (exec (initChain g) pre) k +
+              (hdr.votes.map (C13P.signerRwd rl (exec (initChain g) pre).active.rewardPerPower k)).sum < two256 →
+          cumOf (beginBlock (exec (initChain g) pre) hdr).1 k =
+            cumOf (exec (initChain g) pre) k +
+              (hdr.votes.map (C13P.signerRwd rl (exec (initChain g) pre).active.rewardPerPower k)).sum :=
+  C13P.signers_all_rewarded finj ok htm e h5
+
+/-- heights 2–4 (finding `issuance-early-heights`): the votes are the genesis set, the code reads version 1 / latest -/
+theorem votes_early_heights {f : Hex → Hex} {g : Genesis} {ops : List Op} (hph : ∃ q, phaseRun .idle ops = some q)
+    (hnp : C13P.NoPanic g ops) (htm : C13P.TMFaithful f g ops) {pre : List Op} {hdr : Header} {post : List Op}
+    (e : ops = pre ++ .begin_ hdr :: post) (h2 : 2 ≤ hdr.height) (h4 : hdr.height ≤ 4) :
+    C13P.VotesOf f (TM.genesisSet g) hdr.votes ∧
+    (exec (initChain g) pre).delegs.at? (hopOf hdr.height) =
+      if hdr.height = 4 then some (exec (initChain g) pre).delegs.committed
+      else (exec (initChain g) pre).delegs.hist[0]? :=
+  C13P.votes_early_heights hph hnp htm e h2 h4
+
+/-- non-vacuity: a seven-block run, validators A:10 and B:9, C delegates 5 to A in block 2 -/
+example : C13P.RunOK id C13P.Ex.G C13P.Ex.ops ∧ C13P.TMFaithful id C13P.Ex.G C13P.Ex.ops :=
+  ⟨C13P.Ex.ops_runOK, C13P.Ex.ops_tmFaithful⟩
+example := C13P.Ex.block6_match
+example := C13P.Ex.early_heights_witness
+
 end Rigo.C13
+
